@@ -46,6 +46,23 @@ class Gen:
         rest = [s for s in lib if s not in first]
         rng.shuffle(rest)
         self.subs = sorted(first + rest[:max(0, k - len(first))], key=lambda s: s['id'])
+        if rng.random() < 0.25:
+            # a substance and its namesake (dsl.NAME_TWINS) together in one history
+            tw = rng.choice([x for x in dsl.NAME_TWINS if kinds is None or x['kind'] in kinds])
+            orig = [s for s in LIBRARY if s['id'] == dsl.TWIN_OF[tw['id']]][0]
+            if kinds is None or orig['kind'] in kinds:
+                keep = [s for s in self.subs if s['id'] not in (orig['id'], tw['id'])]
+                drop = max(0, len(keep) + 2 - max(k, 3))
+                liquid_ids = {s['id'] for s in keep if s['kind'] == 'Liquid'}
+                while drop and len(keep) > 1:
+                    cand = [s for s in keep if not (s['kind'] == 'Liquid' and len(liquid_ids) == 1)]
+                    if not cand:
+                        break
+                    x = cand[-1]
+                    keep.remove(x)
+                    liquid_ids.discard(x['id'])
+                    drop -= 1
+                self.subs = sorted(keep + [orig, tw], key=lambda s: s['id'])
         self.impl = dsl.Impl(self.subs)
         self.ops = []
         self.obs = []
